@@ -14,13 +14,17 @@
   i.e. the real Mutex did not meet the atomic spec `cv_wait_reacquires` / `cv_mutex_exclusive` are stated over
   (demo: /verif/corpus/C05/F11_demo.rs). The thread-only det scenarios of this property cannot reach that path.
 
-  Barrier / WaitGroup part: `Model/Sync/Barrier.lean`, `WaitGroup.lean` are the programs of barrier.rs / wait_group.rs
-  over the Mutex and Condvar SPECS established above (locked regions are atomic steps; a condvar wait returns after a
-  later notify_all or spuriously); every number of actors, every schedule, every generation.
+  Barrier / WaitGroup part: `Model/Sync/BarrierImpl.lean`, `WaitGroupImpl.lean` are the programs of barrier.rs /
+  wait_group.rs at IMPLEMENTATION level – one step per access to the lock-protected state (`count`, `generation_id`; the
+  counter of the wait group: hooked under cfg(may_verif), so the replay compares every access and its value) and per
+  call into Mutex / Condvar – over the SPECIFICATIONS of Mutex and Condvar established above (lock = blocks until free;
+  wait = release + sleep in one step, woken by a later notify_all or spuriously, re-locks before returning); every
+  number of actors, every schedule, every generation. `barrier_count_predicate_strands_waiter` is the witness for the
+  predicate of /verif/seeded/C11_c.
 -/
 import MayVerif.Proof.Sync.Condvar.Step
-import MayVerif.Proof.Sync.Barrier.Inv
-import MayVerif.Proof.Sync.WaitGroup.Step
+import MayVerif.Proof.Sync.BarrierImpl.Step
+import MayVerif.Proof.Sync.WaitGroupImpl.Step
 namespace MayVerif.Condvar
 open MayVerif.Mutex (APh VPh upd ok_unp ok_final)
 
@@ -234,135 +238,229 @@ example : (run (init 2) [(0, .lock), (0, .wait false), (0, .go), (0, .go)]).sh.q
 
 end MayVerif.Condvar
 
-/-! ## Barrier -/
-namespace MayVerif.Barrier
+/-! ## Barrier (implementation level: every access to `count` / `generation_id` is a step) -/
+namespace MayVerif.BarrierImpl
 
-/-- **A Barrier(N) releases a generation exactly when N parties have arrived**: a party that is returning from
-    generation `g` (`done l g`) does so only after exactly `N` arrivals with local generation `g` – and no generation
-    ever collects more than `N` arrivals; the current generation has `count < N` of them. For every `g`: reusable. -/
-theorem barrier_release_exact (n N : Nat) (hN : 1 ≤ N) (sched : List (Nat × Env)) :
-    (∀ (t : Nat) (l : Bool) (g : Nat), (run (init n N) sched).pcs t = .done l g →
-        (run (init n N) sched).sh.arr g = N ∧ g < (run (init n N) sched).sh.gen) ∧
-    (∀ (g : Nat), (run (init n N) sched).sh.arr g ≤ N) ∧
-    (run (init n N) sched).sh.arr (run (init n N) sched).sh.gen = (run (init n N) sched).sh.count ∧
-    (run (init n N) sched).sh.count < N := by
+/-- **No early release**: a party of generation `g` gets past the barrier – its `wait_while` predicate came out false
+    (`b6unlock false g`), it is the leader after its `notify_all` (`b6unlock true g`), or it is returning (`done l g`) –
+    only after exactly `N` parties have been counted into generation `g` (and `g` is closed). -/
+theorem barrier_no_early_release (n N : Nat) (hN : 1 ≤ N) (sched : List (Nat × Env)) (t : Nat) (l : Bool) (g : Nat)
+    (hp : (run (init n N false) sched).pcs t = .b6unlock l g ∨ (run (init n N false) sched).pcs t = .done l g) :
+    (run (init n N false) sched).sh.arr g = N ∧ g < (run (init n N false) sched).sh.gen := by
   have h := inv_run _ sched (inv_init n N hN)
-  have hNN : (run (init n N) sched).sh.N = N := by rw [run_N]; rfl
-  generalize run (init n N) sched = s at *
-  have hc1 := h.c1
-  rw [hNN] at hc1
-  refine ⟨fun t l g hp => ⟨by rw [h.c3 g (h.p3 t l g hp), hNN], h.p3 t l g hp⟩, ?_, h.c2, hc1⟩
-  intro g
-  rcases Nat.lt_trichotomy g s.sh.gen with hg | hg | hg
-  · rw [h.c3 g hg, hNN]; exact Nat.le_refl _
-  · rw [hg, h.c2]; exact Nat.le_of_lt hc1
-  · rw [h.c4 g hg]; exact Nat.zero_le _
+  have hNN : (run (init n N false) sched).sh.N = N := by rw [run_N]; rfl
+  generalize run (init n N false) sched = s at *
+  have hg : g < s.sh.gen := by
+    rcases hp with hp | hp
+    · exact (h.g6 t l g hp).1
+    · exact (h.gd t l g hp).1
+  exact ⟨by rw [(h.c3 g hg).1, hNN], hg⟩
 
-/-- **Exactly one leader per generation**: in every completed generation the leader branch was taken exactly once,
-    in the current and future ones not yet; two parties returning `is_leader() = true` from one generation are the
-    same party. -/
-theorem barrier_one_leader (n N : Nat) (hN : 1 ≤ N) (sched : List (Nat × Env)) :
-    (∀ (g : Nat), g < (run (init n N) sched).sh.gen → (run (init n N) sched).sh.ldr g = 1) ∧
-    (∀ (g : Nat), (run (init n N) sched).sh.gen ≤ g → (run (init n N) sched).sh.ldr g = 0) ∧
-    (∀ (t u g : Nat), (run (init n N) sched).pcs t = .done true g → (run (init n N) sched).pcs u = .done true g → t = u) := by
+/-- **Release at n** (quiescence form): when nobody holds the barrier's mutex and `N` parties have been counted into
+    generation `g`, then `g` is closed and none of its parties is left waiting with a predicate that still says "wait":
+    a sleeper of `g` has been notified (its wake-up is enabled: `e < nall`), a woken one can take the free mutex, and
+    nobody of `g` is about to go (back) to sleep. Every party of `g` is runnable or has returned. -/
+theorem barrier_releases_at_n (n N : Nat) (hN : 1 ≤ N) (sched : List (Nat × Env)) (g : Nat)
+    (hfree : (run (init n N false) sched).sh.locked = false) (harr : (run (init n N false) sched).sh.arr g = N) :
+    g < (run (init n N false) sched).sh.gen ∧
+    ∀ (t : Nat),
+      (∀ (e : Nat), (run (init n N false) sched).pcs t = .bsleep g e → e < (run (init n N false) sched).sh.nall) ∧
+      ((run (init n N false) sched).pcs t = .bwake g → (tstep (run (init n N false) sched).sh t (.bwake g) .go).isSome = true) ∧
+      (run (init n N false) sched).pcs t ≠ .b5wait g := by
   have h := inv_run _ sched (inv_init n N hN)
-  generalize run (init n N) sched = s at *
-  exact ⟨h.l1, h.l2, fun t u g ht hu => by rw [← h.p4 t g ht, ← h.p4 u g hu]⟩
+  have hNN : (run (init n N false) sched).sh.N = N := by rw [run_N]; rfl
+  generalize run (init n N false) sched = s at *
+  have hp0 := h.p0 (h.m2 hfree)
+  have hg : g < s.sh.gen := by
+    rcases Nat.lt_trichotomy g s.sh.gen with hg | hg | hg
+    · exact hg
+    · subst hg; have := hp0.2.1; omega
+    · have := (h.c4 g hg).1; omega
+  refine ⟨hg, fun t => ⟨fun e hp => ?_, fun _ => by simp [tstep, hfree], fun hp => ?_⟩⟩
+  · have := h.gs t g e hp; have := hp0.2.2.1; omega
+  · have := (h.m1 t (by simp [hp, holds])).1
+    rw [hfree] at this; contradiction
 
-/-- **All N leave** (no-hang as safety): a party still waiting for a generation that is complete has been notified
-    (its wake-up is enabled: `e < nall`), and a woken party of a complete generation returns at its next step. -/
-theorem barrier_all_released (n N : Nat) (hN : 1 ≤ N) (sched : List (Nat × Env)) (t lg : Nat)
-    (hg : lg < (run (init n N) sched).sh.gen) :
-    (∀ (e : Nat), (run (init n N) sched).pcs t = .bwait lg e → e < (run (init n N) sched).sh.nall) ∧
-    ((run (init n N) sched).pcs t = .bwoken lg → ∀ (x : Env),
-        tstep (run (init n N) sched).sh t (.bwoken lg) x = some ((run (init n N) sched).sh, .done false lg)) := by
+/-- **Exactly one leader per generation**: in every closed generation the leader branch was taken exactly once, in no
+    generation more than once, and two parties returning `is_leader() = true` from one generation are the same party. -/
+theorem barrier_exactly_one_leader (n N : Nat) (hN : 1 ≤ N) (sched : List (Nat × Env)) :
+    (∀ (g : Nat), g < (run (init n N false) sched).sh.gen → (run (init n N false) sched).sh.ldr g = 1) ∧
+    (∀ (g : Nat), (run (init n N false) sched).sh.ldr g ≤ 1) ∧
+    (∀ (t u g : Nat), (run (init n N false) sched).pcs t = .done true g → (run (init n N false) sched).pcs u = .done true g → t = u) := by
   have h := inv_run _ sched (inv_init n N hN)
-  generalize run (init n N) sched = s at *
-  constructor
-  · intro e hp
-    have := h.p1 t lg e hp
-    have := h.c5
-    omega
-  · intro _ x
-    simp only [tstep]
-    have : lg ≠ s.sh.gen := by omega
-    simp [this]
+  generalize run (init n N false) sched = s at *
+  refine ⟨fun g hg => (h.c3 g hg).2, fun g => ?_, fun t u g ht hu => ?_⟩
+  · rcases Nat.lt_trichotomy g s.sh.gen with hg | hg | hg
+    · rw [(h.c3 g hg).2]; exact Nat.le_refl _
+    · subst hg
+      have hpr := h.pr
+      have h0 := h.p0; have h1 := h.p1; have h2 := h.p2; have h3 := h.p3; have h4 := h.p4
+      rcases Nat.lt_or_ge s.sh.ph 1 with a | a
+      · have := (h0 (by omega)).2.2.2; omega
+      · rcases Nat.lt_or_ge s.sh.ph 2 with b | b
+        · have := (h1 (by omega)).2.2.2.2; omega
+        · rcases Nat.lt_or_ge s.sh.ph 3 with c | c
+          · have := (h2 (by omega)).2.2.2; omega
+          · rcases Nat.lt_or_ge s.sh.ph 4 with d | d
+            · have := (h3 (by omega)).2.2.2; omega
+            · have := (h4 (by omega)).2.2.2; omega
+    · rw [(h.c4 g hg).2]; exact Nat.zero_le _
+  · rw [← (h.gd t true g ht).2 rfl, ← (h.gd u true g hu).2 rfl]
 
--- non-vacuity: N = 2, three actors, two generations. 0 arrives and waits; 1 arrives: leader of generation 0;
--- 0 is notified, re-checks, leaves as follower; generation 1 is formed by 2 and 1 (reuse), leader 1 again
-def sched2 : List (Nat × Env) :=
-  [(0, .arrive), (1, .arrive), (0, .go), (0, .go), (1, .ret), (2, .arrive), (1, .arrive), (2, .spurious), (2, .go)]
-example : (run (init 3 2) [(0, .arrive)]).pcs 0 = .bwait 0 0 := by decide
-example : (run (init 3 2) [(0, .arrive), (1, .arrive)]).pcs 1 = .done true 0 := by decide
-example : (run (init 3 2) [(0, .arrive), (1, .arrive), (0, .go), (0, .go)]).pcs 0 = .done false 0 := by decide
-example : (run (init 3 2) sched2).pcs 2 = .done false 1 ∧ (run (init 3 2) sched2).pcs 1 = .done true 1
-    ∧ (run (init 3 2) sched2).sh.gen = 2 ∧ (run (init 3 2) sched2).sh.arr 1 = 2 := by decide
--- a spurious wake-up in an incomplete generation goes back to waiting
-example : (run (init 3 2) [(0, .arrive), (0, .spurious), (0, .go)]).pcs 0 = .bwait 0 0 := by decide
+/-- **Reusable**: arrivals of generation `g+1` that overtake woken-but-not-yet-returned parties of generation `g` are
+    not counted into `g` and do not strand them: a closed generation keeps exactly its `N` arrivals, no generation ever
+    collects more than `N`, and a party of a closed generation that evaluates its predicate – whatever `count` has
+    become by then – finds it false and returns. -/
+theorem barrier_reusable (n N : Nat) (hN : 1 ≤ N) (sched : List (Nat × Env)) :
+    (∀ (g : Nat), g < (run (init n N false) sched).sh.gen → (run (init n N false) sched).sh.arr g = N) ∧
+    (∀ (g : Nat), (run (init n N false) sched).sh.arr g ≤ N) ∧
+    (∀ (t g : Nat) (x : Env), (run (init n N false) sched).pcs t = .b4pred g → g < (run (init n N false) sched).sh.gen →
+        tstep (run (init n N false) sched).sh t (.b4pred g) x = some ((run (init n N false) sched).sh, .b6unlock false g)) := by
+  have h := inv_run _ sched (inv_init n N hN)
+  have hNN : (run (init n N false) sched).sh.N = N := by rw [run_N]; rfl
+  generalize run (init n N false) sched = s at *
+  refine ⟨fun g hg => by rw [(h.c3 g hg).1, hNN], fun g => ?_, fun t g x _ hg => ?_⟩
+  · rcases Nat.lt_trichotomy g s.sh.gen with hg | hg | hg
+    · rw [(h.c3 g hg).1, hNN]; exact Nat.le_refl _
+    · subst hg
+      have hpr := h.pr
+      have h0 := h.p0; have h1 := h.p1; have h2 := h.p2; have h3 := h.p3; have h4 := h.p4
+      rcases Nat.lt_or_ge s.sh.ph 1 with a | a
+      · have := h0 (by omega); omega
+      · rcases Nat.lt_or_ge s.sh.ph 2 with b | b
+        · have := h1 (by omega); omega
+        · rcases Nat.lt_or_ge s.sh.ph 3 with c | c
+          · have := h2 (by omega); omega
+          · rcases Nat.lt_or_ge s.sh.ph 4 with d | d
+            · have := h3 (by omega); omega
+            · have := h4 (by omega); omega
+    · rw [(h.c4 g hg).1]; exact Nat.zero_le _
+  · have hne : (g == s.sh.gen) = false := by simp; omega
+    simp [tstep, h.sd, hne]
 
-end MayVerif.Barrier
+/-! non-vacuity. `arrive t` = call, lock, read generation, count += 1, compare -/
+def arrive (t : Nat) : List (Nat × Env) := [(t, .call), (t, .go), (t, .go), (t, .go), (t, .go)]
+/-- Barrier(2), two parties: 0 arrives and sleeps; 1 arrives as the leader, resets, bumps, notifies, unlocks, returns –
+    and RE-ENTERS for generation 1 (count = 1 again) before 0 has woken; then 0 wakes and re-locks -/
+def overtake : List (Nat × Env) :=
+  arrive 0 ++ [(0, .go), (0, .go)] ++                                  -- predicate true, Condvar::wait: sleeps
+  arrive 1 ++ [(1, .go), (1, .go), (1, .go), (1, .go), (1, .ret)] ++   -- leader: reset, bump, notify_all, unlock; returns
+  arrive 1 ++ [(1, .go), (1, .go)] ++                                  -- generation 1: counted, predicate true, sleeps
+  [(0, .go), (0, .go)]                                                 -- 0: notified, re-locks
+example : (run (init 2 2 false) (arrive 0 ++ [(0, .go), (0, .go)])).pcs 0 = .bsleep 0 0 := by decide
+example : (run (init 2 2 false) (arrive 0 ++ [(0, .go), (0, .go)] ++ arrive 1)).pcs 1 = .b7reset 0 := by decide
+-- the overtaken waiter of generation 0 sees count = 1 ≠ 0 and generation 1: its predicate is false, it returns
+example : (run (init 2 2 false) overtake).pcs 0 = .b4pred 0 ∧ (run (init 2 2 false) overtake).sh.count = 1
+    ∧ (run (init 2 2 false) overtake).sh.gen = 1 ∧ (run (init 2 2 false) overtake).sh.arr 0 = 2
+    ∧ (run (init 2 2 false) overtake).sh.arr 1 = 1 := by decide
+example : (run (init 2 2 false) (overtake ++ [(0, .go), (0, .go)])).pcs 0 = .done false 0
+    ∧ (run (init 2 2 false) (overtake ++ [(0, .go), (0, .go)])).sh.locked = false := by decide
+-- … and generation 1 completes with it: three generations on one barrier
+example : (run (init 2 2 false) (overtake ++ [(0, .go), (0, .go), (0, .ret)] ++ arrive 0)).pcs 0 = .b7reset 1 := by decide
 
-/-! ## WaitGroup -/
-namespace MayVerif.WaitGroup
+/-- **The predicate of seeded/C11_c (`state.count != 0`) strands a waiter** (witness, `seeded = true`): on the same
+    schedule generation 0 is closed (2 of 2 arrived, its leader returned), nobody holds the mutex, yet party 0 of
+    generation 0 is asleep again with no notification pending, party 1 sleeps in generation 1 that can never fill up, and
+    no step other than a spurious wake-up is enabled for anybody: `barrier_releases_at_n` fails for this predicate. -/
+theorem barrier_count_predicate_strands_waiter :
+    (run (init 2 2 true) (overtake ++ [(0, .go), (0, .go)])).sh.arr 0 = 2 ∧
+    (run (init 2 2 true) (overtake ++ [(0, .go), (0, .go)])).sh.locked = false ∧
+    (run (init 2 2 true) (overtake ++ [(0, .go), (0, .go)])).pcs 0 = .bsleep 0 1 ∧
+    (run (init 2 2 true) (overtake ++ [(0, .go), (0, .go)])).pcs 1 = .bsleep 1 1 ∧
+    (run (init 2 2 true) (overtake ++ [(0, .go), (0, .go)])).sh.nall = 1 ∧
+    ([0, 1].all fun t => [Env.call, Env.go, Env.ret].all fun x =>
+        (step (run (init 2 2 true) (overtake ++ [(0, .go), (0, .go)])) t x).isNone) = true := by decide
 
-/-- `count` is exactly the number of live clones: handles held by actors (a handle consumed by `wait` counts until
-    `wait` has dropped it) plus handles in transit. -/
-theorem waitgroup_count_exact (n : Nat) (hn : 0 < n) (sched : List (Nat × Env)) :
+end MayVerif.BarrierImpl
+
+/-! ## WaitGroup (implementation level: every access to the counter under its lock is a step) -/
+namespace MayVerif.WaitGroupImpl
+
+/-- `count` is exactly the number of live clones: handles held by actors (a handle that is being dropped counts until the
+    decrement, `self` inside `wait` until `wait` has dropped it) plus handles in transit. -/
+theorem wg_count_exact (n : Nat) (hn : 0 < n) (sched : List (Nat × Env)) :
     (run (init n) sched).sh.count = sumW n (run (init n) sched).pcs + (run (init n) sched).sh.pool := by
   have h := (inv_run _ sched (inv_init n hn)).s1
   rw [run_n] at h
   exact h
 
-/-- **wait returns only when every other clone has been dropped**: at the return point of `wait` (`gdone`) the
-    count is zero and nobody – no actor, no handle in transit – accounts for a live handle. -/
-theorem waitgroup_exact (n : Nat) (hn : 0 < n) (sched : List (Nat × Env)) (t h : Nat)
-    (hp : (run (init n) sched).pcs t = .gdone h) :
-    (run (init n) sched).sh.count = 0 ∧ (run (init n) sched).sh.pool = 0 ∧
-    ∀ (u : Nat), u < n → wt ((run (init n) sched).pcs u) = 0 := by
-  have hc := waitgroup_count_exact n hn sched
-  have h0 := (inv_run _ sched (inv_init n hn)).d1 t h hp
+/-- the decrement in `Drop` never underflows -/
+theorem wg_no_underflow (n : Nat) (hn : 0 < n) (sched : List (Nat × Env)) (t h : Nat) (k : K) (ht : t < n)
+    (hp : (run (init n) sched).pcs t = .d1sub h k) : 0 < (run (init n) sched).sh.count := by
+  have hc := wg_count_exact n hn sched
   generalize run (init n) sched = s at *
-  refine ⟨h0, by omega, fun u hu => sumW_zero n s.pcs (by omega) u hu⟩
-
-/-- **… and it does return then** (no-hang as safety): once every clone is dropped (`count = 0`), a waiter inside the
-    condvar wait has been notified (`e < nall`: its wake-up is enabled), and a waiter at its (re-)check returns. -/
-theorem waitgroup_released (n : Nat) (hn : 0 < n) (sched : List (Nat × Env)) (t h : Nat)
-    (h0 : (run (init n) sched).sh.count = 0) :
-    (∀ (e : Nat), (run (init n) sched).pcs t = .gwait h e → e < (run (init n) sched).sh.nall) ∧
-    (∀ (x : Env), tstep (run (init n) sched).sh t (.gwoken h) x = some ((run (init n) sched).sh, .gdone h)) ∧
-    (∀ (x : Env), tstep (run (init n) sched).sh t (.g2lock h) x = some ((run (init n) sched).sh, .gdone h)) := by
-  have hi := inv_run _ sched (inv_init n hn)
-  generalize run (init n) sched = s at *
-  refine ⟨fun e hp => (hi.w1 t h e hp).2 h0, ?_, ?_⟩ <;> intro x <;> simp [tstep, h0]
-
-/-- the early return of `wait` (`count == 1` seen) happens only when `self` is the only live handle -/
-theorem waitgroup_early_return_exact (n : Nat) (hn : 0 < n) (sched : List (Nat × Env)) (t h : Nat) (ht : t < n)
-    (hp : (run (init n) sched).pcs t = .g9drop h) :
-    (run (init n) sched).sh.count = 1 ∧ h = 0 ∧ (run (init n) sched).sh.pool = 0 ∧
-    ∀ (u : Nat), u < n → u ≠ t → wt ((run (init n) sched).pcs u) = 0 := by
-  have hc := waitgroup_count_exact n hn sched
-  have hi := inv_run _ sched (inv_init n hn)
-  have hk := hi.k1 t h (by rw [run_n]; exact ht) hp
-  generalize run (init n) sched = s at *
-  have hw : wt (Pc.g9drop h) = h + 1 := rfl
   have h1 := sumW_ge1 n s.pcs t ht
+  have hw : wt (Pc.d1sub h k) = h + 1 := rfl
   rw [hp, hw] at h1
-  refine ⟨hk, by omega, by omega, fun u hu hne => ?_⟩
-  have h2 := sumW_ge2 n s.pcs t u ht hu (Ne.symm hne)
-  rw [hp, hw] at h2
   omega
 
--- non-vacuity: 0 clones a handle for 1 (count 2); 0 waits: sees 2, drops itself, blocks; 1 drops the last handle
--- (notify_all); 0 is notified, re-checks, returns
-def schedW : List (Nat × Env) :=
-  [(0, .clone), (1, .take), (0, .wait), (0, .go), (0, .go), (0, .go), (1, .drop), (0, .go), (0, .go)]
-example : (run (init 2) [(0, .clone), (1, .take), (0, .wait), (0, .go), (0, .go), (0, .go)]).pcs 0 = .gwait 0 0 := by decide
-example : (run (init 2) schedW).pcs 0 = .gdone 0 ∧ (run (init 2) schedW).sh.count = 0 := by decide
--- the early return: a single handle
-example : (run (init 2) [(0, .wait), (0, .go)]).pcs 0 = .g9drop 0 := by decide
-example : (run (init 2) [(0, .wait), (0, .go), (0, .go)]).pcs 0 = .gdone 0 := by decide
--- count = 0 with a waiter still inside the condvar wait: it has been notified
-example : (run (init 2) [(0, .clone), (1, .take), (0, .wait), (0, .go), (0, .go), (0, .go), (1, .drop)]).sh.count = 0
-    ∧ (run (init 2) [(0, .clone), (1, .take), (0, .wait), (0, .go), (0, .go), (0, .go), (1, .drop)]).sh.nall = 1 := by decide
+/-- **`wait` returns exactly when every other clone has been dropped.**
+    Only then: where `wait` has seen `*count == 0` (`w3unlock`) and where it returns (`gdone`, also on the early-return
+    path) the count is zero and nobody – no actor, no handle in transit – accounts for a live handle.
+    And then it does (quiescence form): once the count is zero and nobody holds the counter's mutex, a waiter asleep in
+    the condvar has been notified (its wake-up is enabled), a woken one can take the mutex, and the re-check returns. -/
+theorem wg_wait_returns_iff_zero (n : Nat) (hn : 0 < n) (sched : List (Nat × Env)) :
+    (∀ (t h : Nat), ((run (init n) sched).pcs t = .w3unlock h ∨ (run (init n) sched).pcs t = .gdone h) →
+        (run (init n) sched).sh.count = 0 ∧ (run (init n) sched).sh.pool = 0 ∧
+        ∀ (u : Nat), u < n → wt ((run (init n) sched).pcs u) = 0) ∧
+    ((run (init n) sched).sh.locked = false → (run (init n) sched).sh.count = 0 → ∀ (t h : Nat),
+        (∀ (e : Nat), (run (init n) sched).pcs t = .wsleep h e → e < (run (init n) sched).sh.nall) ∧
+        ((run (init n) sched).pcs t = .wwake h → (tstep (run (init n) sched).sh t (.wwake h) .go).isSome = true) ∧
+        (∀ (x : Env), tstep (run (init n) sched).sh t (.w1cmp h) x = some ((run (init n) sched).sh, .w3unlock h))) := by
+  have hc := wg_count_exact n hn sched
+  have hi := inv_run _ sched (inv_init n hn)
+  generalize run (init n) sched = s at *
+  constructor
+  · intro t h hp
+    have h0 : s.sh.count = 0 := by
+      rcases hp with hp | hp
+      · exact hi.z1 t h hp
+      · exact hi.z2 t h hp
+    exact ⟨h0, by omega, fun u hu => sumW_zero n s.pcs (by omega) u hu⟩
+  · intro hfree h0 t h
+    refine ⟨fun e hp => (hi.w1 t h e hp).2 h0 (hi.m2 hfree), fun _ => by simp [tstep, hfree], fun x => by simp [tstep, h0]⟩
 
-end MayVerif.WaitGroup
+/-- the early return of `wait` (`*count == 1` seen) is taken only when `self` is the only live handle, and stays so
+    until `self` is dropped -/
+theorem wg_early_return_exact (n : Nat) (hn : 0 < n) (sched : List (Nat × Env)) (t h : Nat) (ht : t < n)
+    (hp : (run (init n) sched).pcs t = .g2unlock h true ∨ (run (init n) sched).pcs t = .d0lock h .early ∨
+          (run (init n) sched).pcs t = .d1sub h .early) :
+    (run (init n) sched).sh.count = 1 ∧ h = 0 ∧ (run (init n) sched).sh.pool = 0 ∧
+    ∀ (u : Nat), u < n → u ≠ t → wt ((run (init n) sched).pcs u) = 0 := by
+  have hc := wg_count_exact n hn sched
+  have hi := inv_run _ sched (inv_init n hn)
+  have hn' : (run (init n) sched).n = n := by rw [run_n]; rfl
+  generalize run (init n) sched = s at *
+  have hk : s.sh.count = 1 ∧ wt (s.pcs t) = h + 1 := by
+    rcases hp with hp | hp | hp
+    · exact ⟨hi.k1 t h (by omega) hp, by rw [hp]; rfl⟩
+    · exact ⟨hi.k2 t h (by omega) hp, by rw [hp]; rfl⟩
+    · exact ⟨hi.k3 t h (by omega) hp, by rw [hp]; rfl⟩
+  have h1 := sumW_ge1 n s.pcs t ht
+  refine ⟨hk.1, by omega, by omega, fun u hu hne => ?_⟩
+  have h2 := sumW_ge2 n s.pcs t u ht hu (Ne.symm hne)
+  omega
+
+/-! non-vacuity. clone = call, lock, add, unlock, return; drop = call, lock, sub, compare, (notify_all,) unlock -/
+def cloneS (t : Nat) : List (Nat × Env) := [(t, .clone), (t, .go), (t, .go), (t, .go), (t, .ret)]
+/-- 0 clones a handle for 1; 0 waits: sees 2, drops `self`, locks again, sees 1 > 0, sleeps -/
+def waitS : List (Nat × Env) :=
+  cloneS 0 ++ [(1, .take)] ++
+  [(0, .wait), (0, .go), (0, .go), (0, .go)] ++            -- lock, `== 1`? no, unlock
+  [(0, .go), (0, .go), (0, .go), (0, .go)] ++              -- drop(self): lock, sub, `== 0`? no, unlock
+  [(0, .go), (0, .go), (0, .go)]                           -- lock, `> 0`: cvar.wait
+example : (run (init 2) waitS).pcs 0 = .wsleep 0 0 ∧ (run (init 2) waitS).sh.count = 1 := by decide
+-- 1 drops the last handle: decrement to 0, notify_all, unlock; 0 is notified, re-locks, re-checks, returns
+def lastDrop : List (Nat × Env) := [(1, .drop), (1, .go), (1, .go), (1, .go), (1, .go), (1, .go)]
+example : (run (init 2) (waitS ++ lastDrop)).sh.count = 0 ∧ (run (init 2) (waitS ++ lastDrop)).sh.nall = 1
+    ∧ (run (init 2) (waitS ++ lastDrop)).sh.locked = false := by decide
+example : (run (init 2) (waitS ++ lastDrop ++ [(0, .go), (0, .go), (0, .go), (0, .go)])).pcs 0 = .gdone 0 := by decide
+-- between the decrement to 0 and the notify_all the sleeper is not yet notified (the mutex is held: not quiescent)
+example : (run (init 2) (waitS ++ [(1, .drop), (1, .go), (1, .go)])).sh.count = 0
+    ∧ (run (init 2) (waitS ++ [(1, .drop), (1, .go), (1, .go)])).sh.nall = 0
+    ∧ (run (init 2) (waitS ++ [(1, .drop), (1, .go), (1, .go)])).sh.locked = true := by decide
+-- the early return: a single handle
+example : (run (init 2) [(0, .wait), (0, .go), (0, .go)]).pcs 0 = .g2unlock 0 true := by decide
+example : (run (init 2) [(0, .wait), (0, .go), (0, .go), (0, .go), (0, .go), (0, .go), (0, .go), (0, .go), (0, .go)]).pcs 0 = .gdone 0 := by decide
+
+end MayVerif.WaitGroupImpl
